@@ -184,6 +184,16 @@ def check_C02(run):
         if inv.killed or inv.deadlock is not None:
             continue
         o = RunObs(run.scn, st)
+        dup = run.scn.get("dup_dep")
+        if dup is not None and st.op["target"] in tasks and dup in M.closure(tasks, st.op["target"]):
+            # a needed task lists one dependency twice: nothing may run
+            if o.started_tasks():
+                V.append(Violation("C02", "task-executed-although-a-needed-task-lists-a-dependency-twice",
+                                   {"task": dup, "started": o.started_tasks()[:4]}, i))
+            elif inv.code == 0:
+                V.append(Violation("C02", "duplicate-dependency-accepted", {"task": dup}, i))
+            facts["nontrivial"].append("dup-dep")
+            continue
         needed, cached, err = o.model_plan()
         flags = st.op.get("flags", {})
         if flags.get("check"):
@@ -1536,6 +1546,13 @@ def check_C17(run):
             continue
         where = "cond-out" if cwd.startswith("cond-out") else ("package" if cwd in run.scn.get("pkgs", []) and not cwd.startswith("nocond") else "other")
         tag = "%s from %s" % (kind, where)
+        # the project root is the NEAREST ancestor with a cond_config.toml: a run that started tasks keeps its
+        # index in this project's cond-out (not in an enclosing project's)
+        for who, stp in (("root", sa), ("sub", sb)):
+            iv = stp.inv
+            if kind == "run" and iv.code == 0 and iv.spawns and stp.after is not None and stp.after["rows"] is None:
+                V.append(Violation("C17", "command-did-not-use-the-nearest-project-root (run from %s)" % who,
+                                   {"cwd": cwd if who == "sub" else ""}, i))
         if b.internal is not None and a.internal is None:
             V.append(Violation("C17", "internal-error-only-from-subdirectory %s at %s (%s)" % (b.internal[0], b.internal[1], tag),
                                {"cwd": cwd, "internal": list(b.internal)[:3]}, i))
